@@ -1803,6 +1803,8 @@ fn stress_case(case: u64, rng: &mut Rng, st: &mut Stats, ops_per_writer: usize, 
 // ---------------------------------------------------------------------------------------------
 
 fn main() {
+    // tasks are polled by hand in this binary: see vcore::run::use_plain_block_on
+    vcore::run::use_plain_block_on();
     let mut run = Run::from_args(
         "C12",
         "exploration",
